@@ -26,6 +26,11 @@ func rbytes(r *rand.Rand, n int) []byte {
 	return b
 }
 
+// BoundaryGens / BoundaryNumbers: generations and object numbers at the edges of their ranges
+// (16 bit; 24 bit), for reference values and - as far as the size of the file allows - object ids.
+var BoundaryGens = []uint16{0, 0, 1, 2, 255, 256, 65534, 65535}
+var BoundaryNumbers = []uint32{1, 2, 7, 49, 65535, 65536, 1<<24 - 2, 1<<24 - 1}
+
 // GenObj makes a random value.  refs are candidates for references.
 func GenObj(r *rand.Rand, depth int, refs []pdf.Reference) pdf.Object {
 	switch k := r.IntN(14); {
@@ -67,7 +72,8 @@ func GenObj(r *rand.Rand, depth int, refs []pdf.Reference) pdf.Object {
 		if len(refs) > 0 && r.IntN(4) > 0 {
 			return refs[r.IntN(len(refs))]
 		}
-		return pdf.NewReference(uint32(r.IntN(50)), uint16(r.IntN(3)))
+		// boundary generations and object numbers (the targets need not exist)
+		return pdf.NewReference(BoundaryNumbers[r.IntN(len(BoundaryNumbers))], BoundaryGens[r.IntN(len(BoundaryGens))])
 	case k == 9 && depth > 0:
 		switch r.IntN(3) {
 		case 0:
